@@ -51,7 +51,8 @@ def run_case(case: dict) -> dict:
         # the map held another (longer) mapping before: clear() and map again, as read() does
         for i in case["premap"]:
             try:
-                pm.add_variable(0x2000 + i, 0)
+                short = case.get("premap_short") and i < len(lay) and enc.NUM_SIZE.get(lay[i][0]) == 1 and lay[i][0] != enc.BOOLEAN
+                pm.add_variable(0x2000 + i, 0, 3 if short else None)
                 node.rpdo[f"Obj{i}"].raw      # looked up through the node's PDO collection as well
                 node.rpdo[0x2000 + i]
             except Exception:  # noqa
